@@ -516,7 +516,7 @@ def run_chunk(chunk, ctx):
         if status == "gap":
             col.gap(str(res)[:100])
         elif status == "timeout":
-            col.gap("path timeout")
+            col.count("slow_paths_not_analysed")
         elif status == "ok" and not cur.get("viol") and col.want_witness():
             text = SymStr(res["items"]).concretize(ex.model())
             col.add_witness(dict(limit=limit, ctx=cx, n=res["n"], name=res["name"], text=text, expect=res["expect"]), dict(ok=True))
